@@ -13,8 +13,8 @@ Import ListNotations.
 Local Open Scope Q_scope.
 
 Theorem C09_numbers_roundtrip :
-  forall q rest, stops rest ->
-  exists q', read_num (print_num q ++ rest) = (Val q', List.length (print_num q)) /\ q' == q.
+  forall strict q rest, stops rest ->
+  exists q', read_num_gen strict (print_num q ++ rest) = (Val q', List.length (print_num q)) /\ q' == q.
 Proof. exact read_print_num. Qed.
 Print Assumptions C09_numbers_roundtrip.
 
